@@ -2,9 +2,11 @@ package checks
 
 import (
 	"fmt"
+	"strings"
 	"time"
 
 	"verif/internal/doc"
+	"verif/internal/drv"
 	"verif/internal/fw"
 )
 
@@ -59,7 +61,7 @@ func runC05(c *fw.Ctx) {
 				if baseOut.OK() && o.OK() {
 					det += "; JSON differs: " + firstDiff(baseOut.JSON, o.JSON)
 				}
-				c.Violate("rewrite-changes-result", "C05:"+w.Kind+":"+lineKw(r, w), det,
+				c.Violate("rewrite-changes-result", "C05:"+w.Kind+":"+argClass(w)+":"+lineKw(r, w)+":"+changeClass(baseOut, o), det,
 					map[string]interface{}{"doc": name, "rewrite": w.String(), "baseline_text": r.Text, "rewritten_text": text})
 			}
 		}
@@ -101,10 +103,47 @@ func runC05(c *fw.Ctx) {
 	})
 }
 
+// argClass abstracts the argument of a rewrite.
+func argClass(w doc.Rewrite) string {
+	a := strings.TrimSpace(w.Arg)
+	switch {
+	case w.Kind == "quote" || w.Kind == "paren":
+		return "-"
+	case strings.HasPrefix(a, "###"):
+		return "###"
+	case a == "##":
+		return "##empty"
+	case strings.HasPrefix(a, "##"):
+		return "##text"
+	case a == "#":
+		return "#empty"
+	case strings.HasPrefix(a, "#"):
+		return "#text"
+	case a == "":
+		return "blank"
+	}
+	return fmt.Sprintf("%q", w.Arg)
+}
+
+// changeClass says how the result changed.
+func changeClass(a, b drv.Outcome) string {
+	if a.Kind != b.Kind {
+		m := b.Msg
+		if m == "" {
+			m = a.Msg
+		}
+		return a.Kind + "->" + b.Kind + ":" + firstWordsN(m, 6)
+	}
+	return "json-differs"
+}
+
 // lineKw names the directive keyword a rewrite touches (part of the violation signature).
 func lineKw(r *doc.Rendered, w doc.Rewrite) string {
 	if w.Kind == "quote" || w.Kind == "paren" {
 		return w.Arg
+	}
+	if (w.Kind == "comment-line" || w.Kind == "block-comment" || w.Kind == "blank") && w.Line > 0 {
+		return "after-" + []string{"directive", "body", "text", "paren"}[r.Lines[w.Line-1].Kind]
 	}
 	if w.Line >= 0 && w.Line < len(r.Lines) && r.Lines[w.Line].Span != nil {
 		kw := r.Lines[w.Line].Span.Node.Kw
